@@ -136,6 +136,10 @@ class RateLimiter:
                 ip
                 for ip, bucket in self.buckets.items()
                 if now - bucket.last_update > 600  # 10 minutes idle
+                # ... and refilled completely by now: forgetting a bucket that
+                # is not full again would hand the address a fresh allowance
+                and bucket.tokens + (now - bucket.last_update) * bucket.refill_rate
+                >= bucket.capacity
             ]
 
             for ip in to_remove:
